@@ -226,7 +226,8 @@ def run_probes(ck, vs, docs, rows, module_every):
         where = "%s|%s" % (d["entry"], row["vc"])
         if d["via_alt"]:
             where += "|via-alt|ctx=%s" % d["ctx"]
-        if got != row["accept"]:
+        wrong = got != row["accept"]
+        if wrong:
             ck.violation("C09|accept|" + where,
                          "%s at version %s in context %s: Accept = %s but validate %s" % (
                              d["entry"], vtxt(row["v"]), d["ctx"], row["accept"],
@@ -234,12 +235,12 @@ def run_probes(ck, vs, docs, rows, module_every):
                          case(d, row, msgs))
         elif not got and not row["own"] and row["guardsok"] and not names(msgs, d["key"]):
             ck.violation("C09|naming|" + where, "rejected, but no message names %s" % d["key"].upper(), case(d, row, msgs))
-        # the module-level API (always the MAP schema)
-        if d["root"] == "map" and module_every and i % module_every == 0:
+        # the module-level API (schema of the root's own type)
+        if module_every and i % module_every == 0:
             n_mod += 1
             ck.count()
             m2 = mappyfile.validate(d["dict"], version=ver(row["v"]))
-            if (not m2) != row["accept"]:
+            if (not m2) != row["accept"] and not wrong:       # (wrong: same call underneath, reported above)
                 ck.violation("C09|accept|" + where + "|mappyfile.validate",
                              "mappyfile.validate: %s at version %s: Accept = %s, messages %s" % (
                                  d["entry"], vtxt(row["v"]), row["accept"], [m["error"][:60] for m in m2[:2]]),
@@ -489,7 +490,7 @@ def run(tier):
     faults = vs.fault_docs("root" if quick else "all")
     fault_versions = sorted({v for s in VERSION_SETS for v in s}) if not quick else list(VERSION_SETS[seed % len(VERSION_SETS)])
     rows = probe_table(ck, vs, docs + faults, fault_versions, "c09_table")
-    n_mod = run_probes(ck, vs, docs + faults, rows, module_every=(11 if quick else 1))
+    n_mod = run_probes(ck, vs, docs + faults, rows, module_every=(23 if quick else 2))
     ck.sample({"probe": rows[len(rows) // 3], "document": next(d["dict"] for d in docs + faults if d["id"] == rows[len(rows) // 3]["doc"])})
     ck.notes.append("probes %.1fs" % (time.time() - t0))
     t0 = time.time()
